@@ -52,6 +52,8 @@ class Run:
     def violation(self, func, key, loc, msg, path=None, prop=None):
         """func: qualified name of the function (or record) the report is about; key: the construct
         (member, callee, ...) — (rule, func, key) identifies the finding independent of line numbers"""
+        if self.log is not None: self.log.append(('viol', dict(func=func, key=key, loc=loc, msg=msg, path=path, prop=prop, cfg=self.cur_cfg)))
+        if self.scope is not None and _file_of(loc) not in self.scope: return
         vid = (self.cur_rule, func, key)
         v = self.violations.get(vid)
         if v is None:
@@ -88,7 +90,11 @@ def _file_of(s):
 def replay(run, log):
     for kind, kw in log:
         if kind == 'inst': run.inst(kw['site'], kw['detail'], kw['nontrivial'], _tuplify(kw['key']) if kw['key'] is not None else None)
-        elif kind == 'viol': run.violation(kw['func'], kw['key'], kw['loc'], kw['msg'], kw['path'], kw['prop'])
+        elif kind == 'viol':
+            keep = run.cur_cfg
+            if kw.get('cfg'): run.cur_cfg = kw['cfg']          # cross-configuration rules switch the label while they run
+            run.violation(kw['func'], kw['key'], kw['loc'], kw['msg'], kw['path'], kw['prop'])
+            run.cur_cfg = keep
         elif kind == 'broke': run.broke(kw['msg'])
 
 
